@@ -9,7 +9,8 @@
 From Coq Require Import ZArith QArith Qcanon List Lia.
 From DV Require Import Base.Field Base.LinAlg Base.QcInst Model.Enums Model.Homog Model.Grid Model.Sampler Model.SamplerQc
   Gen.GridT Gen.GridCtor Gen.GridDerive Model.GridDerive Model.GridDeriveQc Model.ImageOps Model.ImageOpsQc Model.ImageOpsCheck Gen.ImageOpsT
-  Proofs.C03Resize Proofs.C04Axis Proofs.C04World Proofs.C04Ops Proofs.C04Qc Proofs.C04Gen.
+  Model.ImageChain Proofs.C03Resize Proofs.C04Axis Proofs.C04World Proofs.C04Ops Proofs.C04Qc Proofs.C04Gen
+  Proofs.C04Chain Proofs.C04ChainWorld Proofs.C04Tie Proofs.C04Shapes.
 Import ListNotations.
 
 Section Statements.
@@ -324,6 +325,258 @@ Theorem C04_traced_index_ops : traced_index_ops_ok K.
 Proof. exact (traced_index_ops_hold_K K Kf Kc). Qed.
 End Statements.
 
+Section Chains.
+Local Open Scope fld_scope.
+Variable K : fld.
+Hypothesis Kf : is_field K.
+Hypothesis Kc : char0 K.
+Variable floorK : K -> Z.
+Variable ceilK floorG : K -> Z.
+Variable leK : K -> K -> bool.
+(* 13. CHAINS of per-axis steps of ANY length on images of ANY number of axes (Model/ImageChain.v): an image that is
+       index-affine where it is known (V) is index-affine, with transported coefficients, at every output index whose reads
+       stay inside V (valid_chain); the transported coefficients are the original ones composed with the chain's index map *)
+Section SProofsC04Chainv.
+Theorem C04_steps_affine (D : nat) (l : list axstep) :
+  steps_ok D l ->
+  forall (im : nimg (K:=K)) (ab : list K * K) (V : list Z -> Prop), affine_on D im ab V ->
+  affine_on D (run_steps floorK l im) (steps_coef l ab) (valid_chain floorK l im V).
+Proof. exact (steps_affine K Kf Kc floorK D l). Qed.
+Theorem C04_coef_phi (D : nat) (l : list axstep) :
+  steps_ok D l ->
+  forall (a : list K) (b : K) (X : list K), length a = D -> length X = D ->
+  dot (fst (steps_coef l (a, b))) X + snd (steps_coef l (a, b)) = dot a (steps_phi l X) + b.
+Proof. exact (coef_phi K Kf D l). Qed.
+End SProofsC04Chainv.
+(* 14. ramp_preserved for chains, world level: if the final grid is in lock-step with the chain (lock), the ramp a.x+b on the
+       original grid is returned as the same ramp on the final grid; lock-step composes (concatenated chains) ... *)
+Section SProofsC04ChainWorldv1.
+Variable D : nat.
+Hypothesis HD : D = 2%nat \/ D = 3%nat.
+Theorem C04_ramp_chain_world (n s c : nat -> K) (d : nat -> nat -> K) (A : list K) (b : K)
+        (im : nimg (K:=K)) (V : list Z -> Prop) (l : list (axstep (K:=K))) (N' S' C' : list K) :
+  length A = D -> length (ishape im) = D -> steps_ok D l ->
+  (forall J, length J = D -> V J -> in_box (ishape im) J = true /\
+     ival im J = dot A (gen_pts D GRID WORLD (vtab D n) (vtab D s) (vtab D c) (tab D D d) (map of_Z J)) + b) ->
+  lock D (vtab D n) (vtab D s) (vtab D c) (tab D D d) N' S' C' l ->
+  forall J, length J = D -> valid_chain floorK l im V J ->
+  ival (run_steps floorK l im) J = dot A (gen_pts D GRID WORLD N' S' C' (tab D D d) (map of_Z J)) + b.
+Proof. exact (ramp_chain_world K Kf Kc floorK D HD n s c d A b im V l N' S' C'). Qed.
+Theorem C04_lock_trans (N S C : list K) Dm (N1 S1 C1 N2 S2 C2 : list K) l1 l2 :
+  lock D N S C Dm N1 S1 C1 l1 -> lock D N1 S1 C1 Dm N2 S2 C2 l2 -> lock D N S C Dm N2 S2 C2 (l1 ++ l2).
+Proof. exact (lock_trans K D N S C Dm N1 S1 C1 N2 S2 C2 l1 l2). Qed.
+End SProofsC04ChainWorldv1.
+(* ... and the grids derived by the resize family, resample, the crop family (any offsets: crop, pad, center crop / pad,
+       narrow, region of interest) and pooling ARE in lock-step with the per-axis steps of the data operations, D in {2,3} *)
+Section SProofsC04ChainWorldv2.
+Variable D : nat.
+Hypothesis HD : D = 2%nat \/ D = 3%nat.
+Variables (n s c : nat -> K) (d : nat -> nat -> K).
+Notation N := (vtab D n). Notation S := (vtab D s). Notation C := (vtab D c). Notation Dm := (tab D D d).
+Theorem C04_lock_resize (ac : bool) (nz mz : nat -> Z) :
+  (forall i, n i = of_Z (nz i)) ->
+  (forall i, (i < D)%nat -> of_Z (K:=K) (mz i) - 1 <> 0) -> (forall i, (i < D)%nat -> of_Z (K:=K) (mz i) <> 0) ->
+  lock D N S C Dm (vtab D (fun i => of_Z (mz i)))
+       ((if ac then gen_resize_spacing_ac else gen_resize_spacing_nac) D N S C Dm (vtab D (fun i => of_Z (mz i)))) C
+       (resize_steps D ac nz mz).
+Proof. exact (lock_resize K Kf Kc floorK D HD n s c d ac nz mz). Qed.
+Theorem C04_lock_resample (nz mz : nat -> Z) (s' : nat -> K) :
+  (forall i, n i = of_Z (nz i)) -> (forall i, (i < D)%nat -> s i <> 0) ->
+  lock D N S C Dm (vtab D (fun i => of_Z (mz i))) (vtab D s') C (resample_steps D nz mz s s').
+Proof. exact (lock_resample K Kf Kc floorK D HD n s c d nz mz s'). Qed.
+Theorem C04_lock_crop (cv : K) (lo hi : nat -> Z) (n' : nat -> K) :
+  lock D N S C Dm (vtab D n') S
+       (gen_center_of_origin D (vtab D n') S Dm (gen_pts D GRID WORLD N S C Dm (vtab D (fun i => of_Z (lo i))))) (crop_steps D cv lo hi).
+Proof. exact (lock_crop K Kf Kc D HD n s c d cv lo hi n'). Qed.
+Theorem C04_lock_pool (ks : nat -> Z) (n' : nat -> K) :
+  let Kk := vtab D (fun i => of_Z (K:=K) (ks i)) in
+  lock D N S C Dm (vtab D n') (vmul S Kk)
+       (gen_center_of_origin D (vtab D n') (vmul S Kk) Dm
+          (gen_pts D GRID WORLD N S C Dm (vscale (1 / (1 + 1)) (vsub Kk (repeat 1 (length Kk))))))
+       (pool_steps D ks).
+Proof. exact (lock_pool K Kf Kc D HD n s c d ks n'). Qed.
+End SProofsC04ChainWorldv2.
+(* 15. the data operations of Model/ImageOps.v (the ones run against the implementation) are these chains of steps: exact
+       equalities for the crop family and pooling (2-D, 3-D, narrow / crop / pad / pool for any D), same shape and values
+       (img_eq, preserved by further steps) for the interpolating ones *)
+Section SProofsC04Tiev.
+Theorem C04_run_steps_ext (l : list axstep) (im im' : nimg (K:=K)) :
+  img_eq im im' -> img_eq (run_steps floorK l im) (run_steps floorK l im').
+Proof. exact (run_steps_ext K floorK l im im'). Qed.
+Theorem C04_d_crop_steps (D : nat) (c : K) (num : list Z) (im : nimg (K:=K)) :
+  d_crop D c num im = run_steps floorK (crop_steps D c (fun k => nth (2 * k) num 0%Z) (fun k => nth (2 * k + 1) num 0%Z)) im.
+Proof. exact (d_crop_steps K floorK D c num im). Qed.
+Theorem C04_d_pad_steps (D : nat) (c : K) (num : list Z) (im : nimg (K:=K)) :
+  d_pad D c num im = run_steps floorK (crop_steps D c (fun k => nth (2 * k) (map Z.opp num) 0%Z) (fun k => nth (2 * k + 1) (map Z.opp num) 0%Z)) im.
+Proof. exact (d_pad_steps K floorK D c num im). Qed.
+Theorem C04_d_pool_steps (D : nat) (ks : list Z) (im : nimg (K:=K)) :
+  d_pool D ks false im = run_steps floorK (pool_steps D (fun k => nth k ks 1%Z)) im.
+Proof. exact (d_pool_steps K floorK D ks im). Qed.
+Theorem C04_d_narrow_steps (k : nat) (start len : Z) (im : nimg (K:=K)) :
+  d_narrow k start len im = run_steps floorK [SCrop 0 k start (zget (ishape im) k - start - len)] im.
+Proof. exact (d_narrow_steps K floorK k start len im). Qed.
+Theorem C04_d_center_crop_steps2 (sx sy nx ny : Z) (im : nimg (K:=K)) :
+  ishape im = [nx; ny] ->
+  d_center_crop 2 [sx; sy] im
+  = run_steps floorK (crop_steps 2 0 (fun k => nth k [(nx - Z.min nx sx) / 2; (ny - Z.min ny sy) / 2] 0)%Z
+                        (fun k => nth k [nx - Z.min nx sx - (nx - Z.min nx sx) / 2; ny - Z.min ny sy - (ny - Z.min ny sy) / 2] 0)%Z) im.
+Proof. exact (d_center_crop_steps2 K floorK sx sy nx ny im). Qed.
+Theorem C04_d_center_crop_steps3 (sx sy sz nx ny nz : Z) (im : nimg (K:=K)) :
+  ishape im = [nx; ny; nz] ->
+  d_center_crop 3 [sx; sy; sz] im
+  = run_steps floorK (crop_steps 3 0 (fun k => nth k [(nx - Z.min nx sx) / 2; (ny - Z.min ny sy) / 2; (nz - Z.min nz sz) / 2] 0)%Z
+        (fun k => nth k [nx - Z.min nx sx - (nx - Z.min nx sx) / 2; ny - Z.min ny sy - (ny - Z.min ny sy) / 2;
+                         nz - Z.min nz sz - (nz - Z.min nz sz) / 2] 0)%Z) im.
+Proof. exact (d_center_crop_steps3 K floorK sx sy sz nx ny nz im). Qed.
+Theorem C04_d_center_pad_steps2 (cv : K) (sx sy nx ny : Z) (im : nimg (K:=K)) :
+  ishape im = [nx; ny] ->
+  d_center_pad 2 cv [sx; sy] im
+  = run_steps floorK (crop_steps 2 cv (fun k => nth k [- ((Z.max nx sx - nx) / 2); - ((Z.max ny sy - ny) / 2)] 0)%Z
+                        (fun k => nth k [- ((Z.max nx sx - nx + 1) / 2); - ((Z.max ny sy - ny + 1) / 2)] 0)%Z) im.
+Proof. exact (d_center_pad_steps2 K floorK cv sx sy nx ny im). Qed.
+Theorem C04_d_center_pad_steps3 (cv : K) (sx sy sz nx ny nz : Z) (im : nimg (K:=K)) :
+  ishape im = [nx; ny; nz] ->
+  d_center_pad 3 cv [sx; sy; sz] im
+  = run_steps floorK (crop_steps 3 cv (fun k => nth k [- ((Z.max nx sx - nx) / 2); - ((Z.max ny sy - ny) / 2); - ((Z.max nz sz - nz) / 2)] 0)%Z
+        (fun k => nth k [- ((Z.max nx sx - nx + 1) / 2); - ((Z.max ny sy - ny + 1) / 2); - ((Z.max nz sz - nz + 1) / 2)] 0)%Z) im.
+Proof. exact (d_center_pad_steps3 K floorK cv sx sy sz nx ny nz im). Qed.
+Theorem C04_d_roi_steps2 (cv : K) (x0 y0 wx wy nx ny : Z) (im : nimg (K:=K)) :
+  ishape im = [nx; ny] ->
+  d_roi 2 cv [x0; y0] [wx; wy] im
+  = run_steps floorK (crop_steps 2 cv (fun k => nth k [x0; y0] 0%Z) (fun k => nth k [nx - (x0 + wx); ny - (y0 + wy)] 0)%Z) im.
+Proof. exact (d_roi_steps2 K floorK cv x0 y0 wx wy nx ny im). Qed.
+Theorem C04_d_roi_steps3 (cv : K) (x0 y0 z0 wx wy wz nx ny nz : Z) (im : nimg (K:=K)) :
+  ishape im = [nx; ny; nz] ->
+  d_roi 3 cv [x0; y0; z0] [wx; wy; wz] im
+  = run_steps floorK (crop_steps 3 cv (fun k => nth k [x0; y0; z0] 0%Z)
+                        (fun k => nth k [nx - (x0 + wx); ny - (y0 + wy); nz - (z0 + wz)] 0)%Z) im.
+Proof. exact (d_roi_steps3 K floorK cv x0 y0 z0 wx wy wz nx ny nz im). Qed.
+Theorem C04_d_interp_steps2 (ac : bool) (m0 m1 nx ny : Z) (im : nimg (K:=K)) :
+  ishape im = [nx; ny] ->
+  eqshape [m0; m1] [nx; ny] = false ->
+  (of_Z m0 - 1 : K) <> 0 -> (of_Z m0 : K) <> 0 -> (of_Z m1 - 1 : K) <> 0 -> (of_Z m1 : K) <> 0 ->
+  img_eq (d_interp floorK 2 ac [m0; m1] im)
+         (run_steps floorK (resize_steps 2 ac (fun k => nth k [nx; ny] 0%Z) (fun k => nth k [m0; m1] 0%Z)) im).
+Proof. exact (d_interp_steps2 K Kf floorK Kc ac m0 m1 nx ny im). Qed.
+Theorem C04_d_interp_steps3 (ac : bool) (m0 m1 m2 nx ny nz : Z) (im : nimg (K:=K)) :
+  ishape im = [nx; ny; nz] ->
+  eqshape [m0; m1; m2] [nx; ny; nz] = false ->
+  (of_Z m0 - 1 : K) <> 0 -> (of_Z m0 : K) <> 0 -> (of_Z m1 - 1 : K) <> 0 -> (of_Z m1 : K) <> 0 ->
+  (of_Z m2 - 1 : K) <> 0 -> (of_Z m2 : K) <> 0 ->
+  img_eq (d_interp floorK 3 ac [m0; m1; m2] im)
+         (run_steps floorK (resize_steps 3 ac (fun k => nth k [nx; ny; nz] 0%Z) (fun k => nth k [m0; m1; m2] 0%Z)) im).
+Proof. exact (d_interp_steps3 K Kf floorK Kc ac m0 m1 m2 nx ny nz im). Qed.
+Theorem C04_d_resample_steps2 (s s' : nat -> K) (m0 m1 nx ny : Z) (im : nimg (K:=K)) :
+  ishape im = [nx; ny] ->
+  s 0%nat <> 0 -> s 1%nat <> 0 ->
+  img_eq (d_resample floorK 2 (map s (seq 0 2)) (map s' (seq 0 2)) [m0; m1] im)
+         (run_steps floorK (resample_steps 2 (fun k => nth k [nx; ny] 0%Z) (fun k => nth k [m0; m1] 0%Z) s s') im).
+Proof. exact (d_resample_steps2 K Kf floorK Kc s s' m0 m1 nx ny im). Qed.
+End SProofsC04Tiev.
+(* 16. shape_agrees: integer size of the derived grid = shape of the derived data, operation by operation (ceil_int,
+       ceil_shift, floor_div hold for the executable instance: C04_ceilQc) *)
+Section SProofsC04Shapesv1.
+Hypothesis ceil_int : forall z : Z, ceilK (of_Z z) = z.
+Hypothesis ceil_shift : forall (x : K) (z : Z), ceilK (x - of_Z z) = (ceilK x - z)%Z.
+Variable D : nat.
+Variables (f s c : nat -> K) (d : nat -> nat -> K) (a0 : bool).
+Notation g := (mkG (vtab D f) (vtab D s) (vtab D c) (tab D D d) a0).
+Theorem C04_shape_center_crop (size : list Z) :
+  nZ ceilK (g_center_crop ceilK D size g) = map (fun p => Z.min (fst p) (snd p)) (combine (nZ ceilK g) size).
+Proof. exact (shape_center_crop K ceilK ceil_int D f s c d a0 size). Qed.
+Theorem C04_shape_center_pad (size : list Z) :
+  nZ ceilK (g_center_pad ceilK D size g) = map (fun p => Z.max (fst p) (snd p)) (combine (nZ ceilK g) size).
+Proof. exact (shape_center_pad K ceilK ceil_int D f s c d a0 size). Qed.
+Theorem C04_shape_narrow (dim : nat) (start len : Z) :
+  nZ ceilK (g_narrow ceilK D dim start len g) = mapi_from (fun i n => if Nat.eqb i dim then len else n) 0 (nZ ceilK g).
+Proof. exact (shape_narrow K ceilK ceil_int D f s c d a0 dim start len). Qed.
+End SProofsC04Shapesv1.
+Section SProofsC04Shapesv2.
+Hypothesis ceil_int : forall z : Z, ceilK (of_Z z) = z.
+Hypothesis ceil_shift : forall (x : K) (z : Z), ceilK (x - of_Z z) = (ceilK x - z)%Z.
+Hypothesis floor_div : forall n k : Z, (0 < k)%Z -> floorG (of_Z n / of_Z k) = (n / k)%Z.
+Theorem C04_shape_agrees_center_crop2 (f s c : nat -> K) d a0 (sx sy nx ny : Z) (im : nimg (K:=K)) :
+  let g := mkG (vtab 2 f) (vtab 2 s) (vtab 2 c) (tab 2 2 d) a0 in
+  ishape im = [nx; ny] -> nZ ceilK g = [nx; ny] ->
+  ishape (d_center_crop 2 [sx; sy] im) = nZ ceilK (g_center_crop ceilK 2 [sx; sy] g).
+Proof. exact (shape_agrees_center_crop2 K ceilK ceil_int ceil_shift f s c d a0 sx sy nx ny im). Qed.
+Theorem C04_shape_agrees_center_crop3 (f s c : nat -> K) d a0 (sx sy sz nx ny nz : Z) (im : nimg (K:=K)) :
+  let g := mkG (vtab 3 f) (vtab 3 s) (vtab 3 c) (tab 3 3 d) a0 in
+  ishape im = [nx; ny; nz] -> nZ ceilK g = [nx; ny; nz] ->
+  ishape (d_center_crop 3 [sx; sy; sz] im) = nZ ceilK (g_center_crop ceilK 3 [sx; sy; sz] g).
+Proof. exact (shape_agrees_center_crop3 K ceilK ceil_int ceil_shift f s c d a0 sx sy sz nx ny nz im). Qed.
+Theorem C04_shape_agrees_center_pad2 (f s c : nat -> K) d a0 (cv : K) (sx sy nx ny : Z) (im : nimg (K:=K)) :
+  let g := mkG (vtab 2 f) (vtab 2 s) (vtab 2 c) (tab 2 2 d) a0 in
+  ishape im = [nx; ny] -> nZ ceilK g = [nx; ny] ->
+  ishape (d_center_pad 2 cv [sx; sy] im) = nZ ceilK (g_center_pad ceilK 2 [sx; sy] g).
+Proof. exact (shape_agrees_center_pad2 K floorK ceilK floorG leK ceil_int ceil_shift f s c d a0 cv sx sy nx ny im). Qed.
+Theorem C04_shape_agrees_center_pad3 (f s c : nat -> K) d a0 (cv : K) (sx sy sz nx ny nz : Z) (im : nimg (K:=K)) :
+  let g := mkG (vtab 3 f) (vtab 3 s) (vtab 3 c) (tab 3 3 d) a0 in
+  ishape im = [nx; ny; nz] -> nZ ceilK g = [nx; ny; nz] ->
+  ishape (d_center_pad 3 cv [sx; sy; sz] im) = nZ ceilK (g_center_pad ceilK 3 [sx; sy; sz] g).
+Proof. exact (shape_agrees_center_pad3 K floorK ceilK floorG leK ceil_int ceil_shift f s c d a0 cv sx sy sz nx ny nz im). Qed.
+Theorem C04_shape_agrees_narrow (D : nat) (f s c : nat -> K) d a0 (k : nat) (start len : Z) (im : nimg (K:=K)) :
+  let g := mkG (vtab D f) (vtab D s) (vtab D c) (tab D D d) a0 in
+  ishape im = nZ ceilK g -> (k < length (ishape im))%nat ->
+  ishape (d_narrow k start len im) = nZ ceilK (g_narrow ceilK D k start len g).
+Proof. exact (shape_agrees_narrow K ceilK ceil_int ceil_shift D f s c d a0 k start len im). Qed.
+Theorem C04_shape_agrees_pad2 (f s c : nat -> K) d a0 (cv : K) (xlo xhi ylo yhi nx ny : Z) (im : nimg (K:=K)) :
+  let g := mkG (vtab 2 f) (vtab 2 s) (vtab 2 c) (tab 2 2 d) a0 in
+  ishape im = [nx; ny] -> nZ ceilK g = [nx; ny] ->
+  leK 1 (f 0%nat + of_Z xlo + of_Z xhi) = true -> leK 1 (f 1%nat + of_Z ylo + of_Z yhi) = true ->
+  ishape (d_pad 2 cv [xlo; xhi; ylo; yhi] im) = nZ ceilK (g_pad ceilK leK 2 [xlo; xhi; ylo; yhi] g).
+Proof. exact (shape_agrees_pad2 K Kf floorK ceilK floorG leK ceil_int ceil_shift f s c d a0 cv xlo xhi ylo yhi nx ny im). Qed.
+Theorem C04_shape_agrees_crop3 (f s c : nat -> K) d a0 (cv : K) (xlo xhi ylo yhi zlo zhi nx ny nz : Z) (im : nimg (K:=K)) :
+  let g := mkG (vtab 3 f) (vtab 3 s) (vtab 3 c) (tab 3 3 d) a0 in
+  ishape im = [nx; ny; nz] -> nZ ceilK g = [nx; ny; nz] ->
+  leK 1 (f 0%nat - of_Z xlo - of_Z xhi) = true -> leK 1 (f 1%nat - of_Z ylo - of_Z yhi) = true ->
+  leK 1 (f 2%nat - of_Z zlo - of_Z zhi) = true ->
+  ishape (d_crop 3 cv [xlo; xhi; ylo; yhi; zlo; zhi] im) = nZ ceilK (g_crop ceilK leK 3 [xlo; xhi; ylo; yhi; zlo; zhi] g).
+Proof. exact (shape_agrees_crop3 K floorK ceilK floorG leK ceil_int ceil_shift f s c d a0 cv xlo xhi ylo yhi zlo zhi nx ny nz im). Qed.
+Theorem C04_shape_agrees_roi2 (f s c : nat -> K) d a0 (cv : K) (x0 y0 wx wy nx ny : Z) (im : nimg (K:=K)) :
+  let g := mkG (vtab 2 f) (vtab 2 s) (vtab 2 c) (tab 2 2 d) a0 in
+  ishape im = [nx; ny] -> nZ ceilK g = [nx; ny] ->
+  leK 1 (f 0%nat - of_Z x0 - of_Z (nx - (x0 + wx))) = true -> leK 1 (f 1%nat - of_Z y0 - of_Z (ny - (y0 + wy))) = true ->
+  ishape (d_roi 2 cv [x0; y0] [wx; wy] im) = [wx; wy] /\
+  nZ ceilK (g_roi ceilK leK 2 [x0; y0] [wx; wy] g) = [wx; wy].
+Proof. exact (shape_agrees_roi2 K floorK ceilK floorG leK ceil_int ceil_shift f s c d a0 cv x0 y0 wx wy nx ny im). Qed.
+Theorem C04_shape_agrees_pool2 (f s c : nat -> K) d a0 (kx ky nx ny : Z) (im : nimg (K:=K)) :
+  let g := mkG (vtab 2 f) (vtab 2 s) (vtab 2 c) (tab 2 2 d) a0 in
+  ishape im = [nx; ny] -> nZ ceilK g = [nx; ny] -> (0 < kx)%Z -> (0 < ky)%Z ->
+  ishape (d_pool 2 [kx; ky] false im) = nZ ceilK (g_pool ceilK floorG 2 [kx; ky] false g).
+Proof. exact (shape_agrees_pool2 K ceilK floorG ceil_int floor_div f s c d a0 kx ky nx ny im). Qed.
+Theorem C04_shape_agrees_pool3 (f s c : nat -> K) d a0 (kx ky kz nx ny nz : Z) (im : nimg (K:=K)) :
+  let g := mkG (vtab 3 f) (vtab 3 s) (vtab 3 c) (tab 3 3 d) a0 in
+  ishape im = [nx; ny; nz] -> nZ ceilK g = [nx; ny; nz] -> (0 < kx)%Z -> (0 < ky)%Z -> (0 < kz)%Z ->
+  ishape (d_pool 3 [kx; ky; kz] false im) = nZ ceilK (g_pool ceilK floorG 3 [kx; ky; kz] false g).
+Proof. exact (shape_agrees_pool3 K ceilK floorG ceil_int floor_div f s c d a0 kx ky kz nx ny nz im). Qed.
+Theorem C04_shape_resample2 (sp sp' : list K) (m0 m1 nx ny : Z) (im : nimg (K:=K)) :
+  ishape im = [nx; ny] ->
+  ishape (d_resample floorK 2 sp sp' [m0; m1] im) = [m0; m1].
+Proof. exact (shape_resample2 K floorK sp sp' m0 m1 nx ny im). Qed.
+Theorem C04_shape_resample3 (sp sp' : list K) (m0 m1 m2 nx ny nz : Z) (im : nimg (K:=K)) :
+  ishape im = [nx; ny; nz] ->
+  ishape (d_resample floorK 3 sp sp' [m0; m1; m2] im) = [m0; m1; m2].
+Proof. exact (shape_resample3 K floorK sp sp' m0 m1 m2 nx ny nz im). Qed.
+Theorem C04_shape_interp2 (ac : bool) (m0 m1 nx ny : Z) (im : nimg (K:=K)) :
+  ishape im = [nx; ny] ->
+  ishape (d_interp floorK 2 ac [m0; m1] im) = [m0; m1].
+Proof. exact (shape_interp2 K floorK ac m0 m1 nx ny im). Qed.
+Theorem C04_shape_interp3 (ac : bool) (m0 m1 m2 nx ny nz : Z) (im : nimg (K:=K)) :
+  ishape im = [nx; ny; nz] ->
+  ishape (d_interp floorK 3 ac [m0; m1; m2] im) = [m0; m1; m2].
+Proof. exact (shape_interp3 K floorK ac m0 m1 m2 nx ny nz im). Qed.
+End SProofsC04Shapesv2.
+End Chains.
+
+Print Assumptions C04_steps_affine.
+Print Assumptions C04_ramp_chain_world.
+Print Assumptions C04_lock_resize.
+Print Assumptions C04_lock_pool.
+Print Assumptions C04_d_interp_steps3.
+Print Assumptions C04_shape_agrees_roi2.
+Print Assumptions C04_shape_agrees_pool3.
+
 Print Assumptions C04_lockstep_resize.
 Print Assumptions C04_lockstep_resample.
 Print Assumptions C04_pool_axis_affine.
@@ -337,6 +590,22 @@ Print Assumptions C04_ramp_chain.
 Print Assumptions C04_traced_index_ops.
 
 (* 11. the ceiling of the executable instance satisfies the hypotheses of theorem 8 *)
+(* shapes of downsample (all axes, no minimum size; ANY number of axes and levels): halving the rounded size (data path) and
+   the float size (grid path) give the same shape; upsample agrees when the float size is integral (otherwise: refuted below) *)
+Theorem C04_shape_agrees_downsample_Qc :
+  forall (D : nat) (L : nat) (a : option bool) (g : dgrid (K:=QcF)),
+  Forall (fun f => (0 <= this f)%Q) (fs g) ->
+  nZ (K:=QcF) ceilQc (g_downsample (K:=QcF) ceilQc leQc D L None 0 a g) = down_size L None 0 (nZ (K:=QcF) ceilQc g).
+Proof. exact shape_agrees_downsample_Qc. Qed.
+Theorem C04_shape_agrees_upsample_int_Qc :
+  forall (D : nat) (L : nat) (a : option bool) (g : dgrid (K:=QcF)) (sizes : list Z),
+  fs g = map (of_Z (K:=QcF)) sizes ->
+  nZ (K:=QcF) ceilQc (g_upsample (K:=QcF) ceilQc leQc D L None a g) = up_size L None (nZ (K:=QcF) ceilQc g).
+Proof. exact shape_agrees_upsample_int_Qc. Qed.
+Theorem C04_floorQc_div :
+  forall n k : Z, (0 < k)%Z -> floorQc (fdiv (K:=QcF) (of_Z n) (of_Z k)) = (n / k)%Z.
+Proof. exact floorQc_div. Qed.
+
 Theorem C04_ceilQc :
   (forall z : Z, ceilQc (of_Z (K:=QcF) z) = z) /\
   (forall (x : Qc) (z : Z), ceilQc (fsub (K:=QcF) x (of_Z z)) = (ceilQc x - z)%Z).
@@ -372,3 +641,32 @@ Example C04_nonvacuous :
   qeqb (ival out [3; 2]%Z) (ival ex_img [1; 1]%Z) = false /\
   forallb (fun J => qeqb (ival out J) (ex_ramp g' J)) (indices (ishape out)) = true.
 Proof. intros. repeat split; vm_compute; reflexivity. Qed.
+
+(* non-vacuity of the chain theorems: a chain of two crop steps and one pooling step on the concrete ramp image; the output
+   index (0,0) is valid (all its reads stay inside the image), and the value there is the ramp on the grid derived by the
+   same operations -- and differs from every input sample it averages *)
+Example C04_chain_nonvacuous :
+  let l : list (axstep (K:=QcF)) := crop_steps (K:=QcF) 2 (q 0 1) (fun k => nth k [1; 0]%Z 0%Z) (fun k => nth k [1; 1]%Z 0%Z) ++ pool_steps (K:=QcF) 2 (fun k => nth k [2; 1]%Z 1%Z) in
+  let V : list Z -> Prop := fun J => in_box [4; 3]%Z J = true in
+  let g1 := apply_op (K:=QcF) ceilQc floorQc leQc 2 (OCrop [1; 1; 0; 1]%Z) ex_grid in
+  let g2 := apply_op (K:=QcF) ceilQc floorQc leQc 2 (OPool [2; 1]%Z false) g1 in
+  steps_ok (K:=QcF) 2 l /\ valid_chain (K:=QcF) floorQ l ex_img V [0; 0]%Z /\
+  ishape (run_steps (K:=QcF) floorQ l ex_img) = nZ (K:=QcF) ceilQc g2 /\
+  qeqb (ival (run_steps (K:=QcF) floorQ l ex_img) [0; 0]%Z) (ex_ramp g2 [0; 0]%Z) = true /\
+  qeqb (ival (run_steps (K:=QcF) floorQ l ex_img) [0; 0]%Z) (ival ex_img [1; 0]%Z) = false.
+Proof.
+  intros l V g1 g2. split; [repeat constructor|]. split.
+  - unfold l, V. cbn [crop_steps pool_steps seq map app valid_chain]. unfold valid_after. cbn [step_valid].
+    repeat first
+      [ match goal with
+        | |- forall _, (0 <= _ < _)%Z -> _ =>
+            let dd := fresh "dd" in let H := fresh "H" in
+            intros dd H; cbn [nth zget upd] in H; assert (dd = 0 \/ dd = 1)%Z as [-> | ->] by lia; [ | try (exfalso; lia)]
+        | |- _ /\ _ => split
+        end
+      | (vm_compute; reflexivity)
+      | (cbn [nth zget upd]; lia)
+      | (vm_compute; lia)
+      | (vm_compute; intro; discriminate) ].
+  - repeat split; vm_compute; reflexivity.
+Qed.
